@@ -18,6 +18,9 @@ people = seq([b("John Doe <jdoe@example.com>"), b("Foo Bar <fnord@baz.fnord>"), 
 deps = seq([b("debhelper (>= 9)"), b("libfoo-dev [amd64] | libbar-dev"), b("python3:any <!nocheck>")])
 VAL = {
  "scalar": lambda f: b({"Format": "3.0 (quilt)", "Urgency": "medium", "Priority": "optional", "Section": "utils"}.get(f, "value of " + f)),
+ # a scalar whose text depends on the model's n: the source of a Packages entry is a bare name, a name with the
+ # source version of a binNMU in parentheses, or another bare name
+ "scalar-n": lambda f: seq([b("srcpkg"), b("srcpkg (1.0-1)"), b("src-x")]),
  "version": lambda f: b("1:1.0-1"),
  "int": lambda f: b("4242"),
  "bool": lambda f: b("yes"),
@@ -51,7 +54,7 @@ KINDS = {
          ("Essential","Essential","bool"),("Description","Description","mstring"),("Depends","Depends","dep"),("Recommends","Recommends","dep"),
          ("Suggests","Suggests","dep"),("Enhances","Enhances","dep"),("Pre-Depends","PreDepends","dep"),("Breaks","Breaks","dep"),
          ("Conflicts","Conflicts","dep"),("Replaces","Replaces","dep"),("Built-Using","BuiltUsing","dep")],
- "packages": [("Package","Package","scalar"),("Source","Source","scalar"),("Version","Version","version"),("Installed-Size","InstalledSize","int"),
+ "packages": [("Package","Package","scalar"),("Source","Source","scalar-n"),("Version","Version","version"),("Installed-Size","InstalledSize","int"),
          ("Maintainer","Maintainer","scalar"),("Architecture","Architecture","arch"),("Multi-Arch","MultiArch","scalar"),("Description","Description","mstring"),
          ("Homepage","Homepage","scalar"),("Description-md5","DescriptionMD5","scalar"),("Tag","Tags","cslist"),("Section","Section","scalar"),
          ("Priority","Priority","scalar"),("Filename","Filename","scalar"),("Size","Size","int"),("MD5sum","MD5sum","scalar"),("SHA1","SHA1","scalar"),
